@@ -652,7 +652,9 @@ func cmdCheck(args []string) int {
 		}
 		chunks = append(chunks, chunk{f, t})
 	}
-	deadline := start.Add(time.Duration(spec.seconds * float64(time.Second)))
+	// the budget is that of the runs: the time the build took (minutes on a
+	// busy machine) is not taken out of it
+	deadline := time.Now().Add(time.Duration(spec.seconds * float64(time.Second)))
 	var mu sync.Mutex
 	total := summary{Fired: map[string]int{}, Configured: map[string]int{}, Probes: map[string]int{}, Known: map[string]int{},
 		KnownDetail: map[string]string{}, InconReasons: map[string]int{}, Batches: map[string]int{}}
